@@ -1,0 +1,1 @@
+//! Verification hooks for the `mgr` domain (`--cfg litep2p_verif` only).
